@@ -250,6 +250,16 @@ var concScripts = map[string]func() [][]step{
 			{{Kind: "publish", Items: []pubItem{{"v1", "/p", "pv1"}, {"v2", "/p", "pv2"}, {"v3", "/p", "pv3"}}}},
 		}
 	},
+	// two publishers whose id sets intersect without being equal: at most one of them can be acknowledged, and the
+	// acknowledged one's items - all of them - are there
+	"conc-publishers-overlap": func() [][]step {
+		return [][]step{
+			// each publish is followed by an ingress request of the same client, so that there are crash points AFTER the
+			// answer of either publish (an acknowledgement is only judged at a crash point that follows it)
+			{{Kind: "publish", Items: []pubItem{{"w1", "/p", "pw1"}, {"w2", "/p", "pw2"}}}, {Kind: "ingress", Route: "/p", Payload: "w4", Targets: []string{"pull"}}},
+			{{Kind: "publish", Items: []pubItem{{"w2", "/p", "qw2"}, {"w3", "/p", "qw3"}}}, {Kind: "ingress", Route: "/p", Payload: "w5", Targets: []string{"pull"}}},
+		}
+	},
 	// a producer racing with a consumer that settles what it gets
 	"conc-consumer": func() [][]step {
 		return [][]step{
